@@ -385,6 +385,14 @@ func (c *Conn) SetWriteDeadline(t time.Time) error {
 }
 
 // ClearWriteFault removes a pending write-failure fault.
+// FailWritesFromNow makes the next byte the client writes fail (the transport broke while
+// the connection was idle).
+func (c *Conn) FailWritesFromNow() {
+	c.mu.Lock()
+	c.FailWriteAt = len(c.Out)
+	c.mu.Unlock()
+}
+
 func (c *Conn) ClearWriteFault() {
 	c.mu.Lock()
 	c.FailWriteAt = -1
